@@ -311,4 +311,22 @@ def r3_7(ctx):
     r6_2(ctx, rule_id="R3.7", only={"_ansi"})
 
 
-RULES = [r3_1, r3_2, r3_3, r3_4, r3_5, r3_6, r3_7]
+def r3_8(ctx):
+    from .c06 import r6_5
+    from .common import borrow
+    borrow(ctx, r6_5, "R6.5", "R3.8", " [the SGR attribute codes written for a segment are exactly those of the attributes its style sets: the guard masks of _make_ansi_codes cover every attribute bit]")
+
+
+def r3_9(ctx):
+    from .c18 import r18_9
+    from .common import borrow
+    borrow(ctx, r18_9, "R18.9", "R3.9", " [the colour code written on a 16-colour terminal is that of the entry nearest to the segment's colour]")
+
+
+def r3_10(ctx):
+    from .c18 import r18_1
+    from .common import borrow
+    borrow(ctx, r18_1, "R18.1-3", "R3.10", " [the colour code written is a valid index of the terminal's colour system]")
+
+
+RULES = [r3_1, r3_2, r3_3, r3_4, r3_5, r3_6, r3_7, r3_8, r3_9, r3_10]
